@@ -34,8 +34,15 @@ Input space (explicit bound; deterministic given the seed):
     (variational_gamma: rescaling_intervals {None, 0, 3}, rescaling_iterations {None, 0, 2}, match_segregating_sites,
     singletons_phased, max_iterations {1, 5, None}, regularise_roots; inside_outside: probability_space,
     outside_standardize, ignore_oldest_root; maximization: probability_space).
-  quick  : every input x every method x one time scale and 4 option draws  (~1000 date() calls, ~25 s)
-  thorough: more inputs (5-leaf shapes, 4x the simulations) x every method x all 7 time scales x 6 option draws.
+  quick  : every input x every accepting method x 2 of the 7 time scales (rotating over inputs) x 2 option draws
+           (~560 date() calls), plus ~420 direct constrain_ages calls; ~25 s.
+  thorough: 5-leaf shapes and 4x the simulations; every input x method x all 7 scales (2 for 5-leaf shapes) x 4
+           option draws (~13 000 date() calls) plus ~10 000 direct constrain_ages calls; ~10 min.
+In addition the two branch-length clauses are evaluated directly on the real util.constrain_ages (clauses prefixed
+"constrain_ages:") with adversarial unconstrained ages (random order violations, exact ties, reversed, already valid)
+at every time scale, and a date() call that fails while ASSEMBLING its output (exception raised under
+get_modified_ts, e.g. tskit rejecting the dated tables) is a failure of clause dated-tables-form-a-tree-sequence:
+the inference finished but its result was not a valid tree sequence.
 Not exhaustive beyond the tree shapes; option combinations are sampled (seeded), not crossed.
 
 NOT covered: tskit's C validation is trusted as the meaning of "valid"; inputs above a few tens of nodes; calls that
@@ -233,7 +240,11 @@ def call_date(ts, method, mu, ne, **kw):
             with np.errstate(all="ignore"):
                 return tsdate.date(ts, mutation_rate=mu, method=method, **kw), None
     except Exception as e:  # noqa: BLE001  (a raising call is outside "whenever date() returns")
-        return None, f"{type(e).__name__}: {str(e)[:160]}"
+        import traceback
+        frames = [f.name for f in traceback.extract_tb(e.__traceback__)]
+        # "OUTPUT:" marks an error raised while the dated tables were being assembled/validated (after inference)
+        where = "OUTPUT:" if "get_modified_ts" in frames else ""
+        return None, f"{where}{type(e).__name__}: {str(e)[:160]}"
 
 
 def describe(case, method, mu, ne, kw, scale=1.0):
@@ -317,13 +328,55 @@ def constraint_active(out, mbl):
     return bool(np.any(mn[out.edges_parent] < mn[out.edges_child] + mbl))
 
 
+def direct_constrain_ages(rep, cases, rng, thorough):
+    """The same two branch-length clauses evaluated directly on the real util.constrain_ages (the function that
+    enforces them inside date()), fed with adversarial unconstrained ages the pipeline rarely produces: random
+    order violations, exact parent==child ties and already-valid ages, at every time scale.  Sample nodes keep
+    their tree-sequence times (the calling convention of get_modified_ts)."""
+    import tsdate.util
+    for ci, case in enumerate(cases):
+        if ci % (2 if thorough and not case.name.startswith("shape5") else 4):
+            continue
+        ts0 = case.ts
+        is_sample = (ts0.nodes_flags & tskit.NODE_IS_SAMPLE) != 0
+        for scale in (SCALES if thorough else (1e-6, 1.0, 1e9, 1e12)):
+            ts = ts0 if scale == 1.0 else inputs.scale_times(ts0, scale)
+            base = ts.nodes_time
+            top = max(float(base.max()), scale)
+            variants = {
+                "random": np.where(is_sample, base, rng.uniform(0, top, size=base.size)),
+                "ties": np.where(is_sample, base, top),
+                "valid": base.copy(),
+                "reversed": np.where(is_sample, base, top - base),
+            }
+            for vname, times in variants.items():
+                for eps in (1e-8, 1e-3 * scale):
+                    for iters in ((0, 3) if thorough else (0,)):
+                        key = f"direct|{case.name}|x{scale:g}|{vname}|eps={eps:g}|it={iters}"
+                        desc = {"function": "tsdate.util.constrain_ages", "case": case.name, "time_scale": scale,
+                                "nodes_time": times.tolist(), "epsilon": eps, "max_iterations": iters,
+                                "ts": bounded_api.ts_to_json(ts)}
+                        out = tsdate.util.constrain_ages(ts, times.astype(np.float64), eps, iters)
+                        p, c = ts.edges_parent, ts.edges_child
+                        strict = out[p] > out[c]
+                        atleast = out[p] >= out[c] + np.float64(eps)
+                        rep.case("constrain_ages:parent-strictly-older-than-child", bool(np.all(strict)), key=key,
+                                 input=desc, observed=[(int(p[e]), int(c[e]), float(out[p[e]]), float(out[c[e]]))
+                                                       for e in np.flatnonzero(~strict)[:5]],
+                                 expected="out[parent] > out[child] on every edge")
+                        rep.case("constrain_ages:parent-at-least-child-plus-epsilon", bool(np.all(atleast)), key=key,
+                                 input=desc, observed=[(int(p[e]), int(c[e]), float(out[p[e]]), float(out[c[e]]))
+                                                       for e in np.flatnonzero(~atleast)[:5]],
+                                 expected="out[parent] >= fl(out[child] + epsilon) on every edge")
+
+
 def run(req, rep):
     tier, seed = req["tier"], int(req["seed"])
     thorough = tier == "thorough"
     rng = np.random.default_rng([seed, 1])
     logging.getLogger("tsdate").setLevel(logging.ERROR)
     cases = suite(seed, tier)
-    ndraw = 6 if thorough else 4
+    ndraw = 4 if thorough else 2
     rep.space = ("real tsdate.date() on: all rooted leaf-labelled tree shapes (polytomies incl.) with random mutations; "
                  "seeded msprime sims (haploid, diploid, ancient and internal samples, polytomy, multiroot, unary, "
                  "tsinfer-inferred) x 3 methods x time scales 1e-6..1e12 x sampled min_branch_length/"
@@ -331,13 +384,15 @@ def run(req, rep):
     rep.exhaustive = False
     raised, active, calls = {}, 0, 0
     for ci, case in enumerate(cases):
-        scales = SCALES if thorough else (SCALES[ci % len(SCALES)], SCALES[(ci + 4) % len(SCALES)])
+        if thorough and not case.name.startswith("shape5"):
+            scales = SCALES
+        else:  # two scales per input, rotating so that every scale is used by many inputs
+            scales = (SCALES[ci % len(SCALES)], SCALES[(ci + 4) % len(SCALES)])
         for method in case.methods():
             for si, scale in enumerate(scales):
                 ts = case.ts if scale == 1.0 else inputs.scale_times(case.ts, scale)
                 mu, ne = case.mu / scale, case.ne * scale
-                k = ndraw if thorough else ndraw // 2
-                for j, kw in enumerate(method_configs(case, method, rng, k)):
+                for j, kw in enumerate(method_configs(case, method, rng, ndraw)):
                     mbl = [None, 1e-8, 1e-3 * scale, 50.0 * scale][(j + si + ci) % 4]
                     ci_opt = [None, 0, 3, 100][int(rng.integers(4))]
                     if mbl is not None:
@@ -347,18 +402,27 @@ def run(req, rep):
                     calls += 1
                     out, err = call_date(ts, method, mu, ne, **kw)
                     key = f"{case.name}|{method}|x{scale:g}|{sorted(kw.items())}"
+                    desc = describe(case, method, mu, ne, kw, scale)
                     if err is not None:
                         raised[err[:70]] = raised.get(err[:70], 0) + 1
+                        if err.startswith("OUTPUT:"):
+                            # inference finished, but the dated tables were rejected by tskit (or assembling them
+                            # crashed): the computed output was not a valid tree sequence
+                            rep.case("dated-tables-form-a-tree-sequence", False, key=key, input=desc, observed=err,
+                                     expected="tables.tree_sequence() accepts the dated tables")
                         continue
-                    desc = describe(case, method, mu, ne, kw, scale)
+                    rep.case("dated-tables-form-a-tree-sequence", True, key=key, input=desc)
                     eff = DEFAULT_MBL if mbl is None else mbl
                     check_output(rep, out, ts, eff, key, desc)
                     if constraint_active(out, eff):
                         active += 1
+    direct_constrain_ages(rep, cases, np.random.default_rng([seed, 2]), thorough)
     rep.bound = (f"{len(cases)} inputs (<= {max(c.ts.num_nodes for c in cases)} nodes, <= "
-                 f"{max(c.ts.num_mutations for c in cases)} mutations), {calls} date() calls, "
-                 f"{len(SCALES) if thorough else 2} time scale(s) per input, {ndraw if thorough else ndraw // 2} option draws per "
-                 f"(input, method, scale)")
+                 f"{max(c.ts.num_mutations for c in cases)} mutations), {calls} date() calls: "
+                 f"{'7 time scales (2 for 5-leaf shapes)' if thorough else '2 of 7 time scales (rotating)'} per input, "
+                 f"{ndraw} option draws per (input, method, scale); plus direct constrain_ages calls on every "
+                 f"{'2nd (4th for 5-leaf shapes)' if thorough else '4th'} input x {'7' if thorough else '4'} scales x "
+                 f"4 adversarial age vectors x 2 epsilons x {'2' if thorough else '1'} iteration settings")
     rep.notes.append(f"date() calls that raised (not cases of this property): {raised}")
     rep.notes.append(f"returned calls whose unconstrained posterior means violated the branch-length rule on some edge "
                      f"(constraint had to act): {active}")
